@@ -181,7 +181,7 @@ CORPUS = [
     "div 5 0", "powm 3 2 0", "ord 1 0", "poly 2 5", "poly 3 -4", "ftd -6", "mob 0", "qr 0", "isqr 3 0", "lehman 20",
     "crt 0 5", "crt 1 3", "crt 1 1 3 5", "crt 2 1 1 5 0", "crt 2 1 2 -3 5", "crt 2 1 2 0 5",
     "gcdext 0 0", "gcdext 0 5", "gcdext -5 0", "gcdext -6 -6", "inv 3 1", "inv 3 -1", "inv 0 1",
-    "kro 5 0", "kro 1 0", "kro -7 -16", "kro 6 -4", "pf 4294967296", "tot 0", "proot 0", "proot -2",
+    "proot 1639197169", "proot 3278394338", "proot 1681", "kro 5 0", "kro 1 0", "kro -7 -16", "kro 6 -4", "pf 4294967296", "tot 0", "proot 0", "proot -2",
     "ppd 0 0", "ppd -8 0", "ppd 1 0", "bin 5 0", "bin -7 3", "bin 3 5", "fib 0", "fib 1", "harm 0 1", "bern 0", "bern 1",
 ]
 
